@@ -103,6 +103,7 @@ class Tracer:
         self.res = Resolver(flat)
         self.dim = dim
         self.lines = []
+        self.kernel_writes = []
         self.overlaps = []
 
     def __call__(self, k, kwargs):
@@ -146,6 +147,7 @@ class Tracer:
                         self.overlaps.append({"kernel": name, "written": f, "other": g, "identical": bool(same),
                                               "other_read_at_centre_only": bool(centre_only)})
         self.lines.append({"kid": name, "region": rs, "binds": binds, "scal": scal, "problems": problems})
+        self.kernel_writes.append(set(k.writes))
 
 
 def run_driver(driver, requests, timeout=1800):
@@ -251,6 +253,65 @@ def compare_bufs(impl_flat, model_bufs, real_t, nops=50):
     return None, worst
 
 
+PADS = []  # (big array, index tuple of the view) registered by padded() since the last take_pads()
+
+
+def padded(r, shape, dtype, sentinel=True):
+    """random array of `shape` as a strided (non-contiguous) view into a larger sentinel-filled array"""
+    lead = len(shape) - (2 if len(shape) <= 3 and shape[0] in (2, 3) and len(shape) == 3 else len(shape))
+    pad_lo = [0 if (len(shape) >= 3 and k == 0 and shape[0] in (2, 3)) else int(r.integers(1, 3)) for k in range(len(shape))]
+    pad_hi = [0 if (len(shape) >= 3 and k == 0 and shape[0] in (2, 3)) else int(r.integers(1, 4)) for k in range(len(shape))]
+    big = np.full(tuple(n + a + b for n, a, b in zip(shape, pad_lo, pad_hi)), np.nan, dtype=dtype)
+    if sentinel:
+        # NaN payload pattern: any write (even of a NaN) of a different bit pattern is detectable
+        raw = big.view(np.uint64 if dtype == np.float64 else np.uint32)
+        raw += np.arange(raw.size, dtype=raw.dtype).reshape(raw.shape) % 1000 + 1
+    idx = tuple(slice(a, a + n) for n, a in zip(shape, pad_lo))
+    view = big[idx]
+    view[...] = r.normal(size=shape).astype(dtype)
+    PADS.append((big, idx))
+    return view
+
+
+def take_pads():
+    out = list(PADS)
+    PADS.clear()
+    return out
+
+
+def _bits(a):
+    return np.ascontiguousarray(a).view(np.uint8)
+
+
+def check_frame(case, flat, before, trace_lines, dim):
+    """bit-identity of (1) the padding around strided views, (2) every cell of every buffer that lies
+    outside all iteration regions in which the buffer was bound to a written formal (numpy statements of the
+    wrapper are declared by the case as `numpy_regions`)"""
+    for big, idx, snap in case.get("_pad_snaps", []):
+        mask = np.ones(big.shape, dtype=bool)
+        mask[idx] = False
+        if not np.array_equal(_bits(big[mask]), _bits(snap[mask])):
+            return "padding around a strided view was modified"
+    written = {n: np.zeros(a.shape, dtype=bool) for n, a in flat.items()}
+    for l, k in trace_lines:
+        if l["region"] == "empty":
+            continue
+        reg = tuple(slice(*(int(x) for x in part.split(":"))) for part in l["region"].split(","))
+        for formal, bn in l["binds"]:
+            if formal in k and bn in written:
+                written[bn][reg] = True
+    for bn, regs in (case.get("numpy_regions") or {}).items():
+        for reg in regs:
+            written[bn][reg] = True
+    for n, a in flat.items():
+        m = ~written[n]
+        if not np.array_equal(_bits(np.asarray(a)[m]), _bits(before[n][m])):
+            cells = np.argwhere(m & (np.asarray(a).view(np.uint64 if a.dtype == np.float64 else np.uint32)
+                                     != before[n].view(np.uint64 if a.dtype == np.float64 else np.uint32)))
+            return f"buffer {n} modified outside every written region, e.g. at {cells[0].tolist() if len(cells) else '?'}"
+    return None
+
+
 def run_cases(driver, cases, dim, real_t=np.float64):
     """executes every case on the implementation (traced) and on the model; returns result dict"""
     requests = []
@@ -260,6 +321,8 @@ def run_cases(driver, cases, dim, real_t=np.float64):
     for c in cases:
         flat = expand_bufs(c["bufs"], dim)
         before = {n: np.array(a, copy=True) for n, a in flat.items()}
+        before_named = {n: np.array(a, copy=True) for n, a in c["bufs"].items()}
+        c["_pad_snaps"] = [(big, idx, big.copy()) for big, idx in c.get("pads", [])]
         tr = Tracer(flat, dim)
         shim.TRACERS.append(tr)
         try:
@@ -270,6 +333,32 @@ def run_cases(driver, cases, dim, real_t=np.float64):
         overlaps.append(tr.overlaps)
         finals.append({n: np.array(a, copy=True) for n, a in flat.items()})
         requests.append((c["prog"], c["args"], before, False))
+        if c.get("ref") is not None:
+            exp = c["ref"](before_named)
+            rt = c.get("real_t", real_t)
+            eps = float(np.finfo(rt).eps)
+            for n, e in exp.items():
+                got = np.asarray(c["bufs"][n], dtype=np.float64)
+                e = np.asarray(e, dtype=np.float64)
+                scale = max(1.0, float(np.max(np.abs(e))) if e.size else 1.0)
+                with np.errstate(all="ignore"):
+                    d = np.abs(got - e)
+                bad = ~(d <= 4096 * eps * scale)
+                if np.any(bad):
+                    idx = tuple(int(i) for i in np.argwhere(bad)[0])
+                    return {"ok": False, "cases": len(traces), "samples": [], "worst_rel_err": float(np.nanmax(d) / scale),
+                            "kernel_calls": 0, "name": "implementation vs independent reference",
+                            "detail": f"{c['label']}: implementation differs from the documented operator in buffer {n} at {idx}: "
+                                      f"got {got[idx]!r}, reference {e[idx]!r}",
+                            "failing_input": {"oracle": "reference", "case": c["label"], "buffer": n, "cell": list(idx),
+                                              "got": float(got[idx]), "reference": float(e[idx]),
+                                              "args": {k_: _argstr(v_) for k_, v_ in c["args"].items()},
+                                              "inputs": {m: np.asarray(a).tolist() for m, a in before_named.items()}}}
+        fr = check_frame(c, flat, before, list(zip(tr.lines, tr.kernel_writes)), dim)
+        if fr is not None:
+            return {"ok": False, "cases": len(traces), "samples": [], "worst_rel_err": 0.0, "kernel_calls": 0,
+                    "detail": f"{c['label']}: {fr}", "failing_input": {"oracle": "frame", "case": c["label"], "what": fr,
+                                                                        "args": {k_: _argstr(v_) for k_, v_ in c["args"].items()}}}
     results = run_driver(driver, requests)
     out = {"ok": True, "cases": len(cases), "samples": [], "worst_rel_err": 0.0, "kernel_calls": 0, "overlaps": overlaps}
     for c, tr, fin, (mcalls, mbufs) in zip(cases, traces, finals, results):
